@@ -16,6 +16,7 @@ proof blocks.  No executable token of the extracted code is edited.
   @iter <k> <name>     name the ghost iterator of the k-th (for) loop
   @hint start          proof text at the start of the body
   @hint after|before <k> :: <statement text>   proof text next to the k-th occurrence of the text
+  @hint loopstart <k>                          proof text as first statement of the k-th loop's body
   @closure <k> :: <binder: type> :: <ensures>  contract for the k-th closure
   @end                 ends a sub-block
 """
@@ -267,6 +268,13 @@ def _weave_sub(sub, e, fnid, src, sig_end, body_close, lps, edits, vacuity, spli
         at = sig_end + 1 + max(inner.rfind(';'), inner.rfind('}')) + 1
         text, metas = _mk(lines, fnid, 'hint', e['props'])
         edits.append(Edit(at, '\n' + text + '\n', 6, [None] + metas + [None]))
+    elif re.match(r'@hint loopstart \d+\s*$', head):
+        # first statement of the body of the k-th loop (structural anchor: survives edits of the loop's statements)
+        k = int(head.split()[2])
+        if k > len(lps):
+            raise AnchorLost('loop %d of %s' % (k, fnid))
+        text, metas = _mk(lines, fnid, 'hint', e['props'])
+        edits.append(Edit(lps[k - 1][1] + 1, '\n' + text + '\n', 7, [None] + metas + [None]))
     elif head.startswith('@hint '):
         m = re.match(r'@hint (after|before) (\d+) :: (.*)$', head)
         if not m:
